@@ -209,4 +209,62 @@ mod verif_kani_comb {
             Err(e) => { assert!(calls.get() == 0); assert!(r == Err(e)); }
         }
     }
+
+    // ---- the same table for a zero-sized payload and a zero-sized error: the combinators are generic, and nothing in their
+    // contract depends on the size of T or E (a `size_of::<T>() == 0` shortcut would be invisible to the u8 table)
+    fn any_parsed_unit() -> Parsed<(), ()> {
+        match kani::any::<u8>() % 3 { 0 => Fallthrough, 1 => Res(Ok(())), _ => Res(Err(())) }
+    }
+
+    #[kani::proof]
+    fn zst_table() {
+        // and_do
+        let x = any_parsed_unit();
+        let calls = Cell::new(0u32);
+        let r = x.and_do(|_v| { calls.set(calls.get() + 1); });
+        assert!(calls.get() == if x == Res(Ok(())) { 1 } else { 0 }, "and_do: runs exactly once after a success, also for a zero-sized value");
+        assert!(r == x);
+        // and_also
+        let cont: Result<(), ()> = if kani::any() { Ok(()) } else { Err(()) };
+        let calls = Cell::new(0u32);
+        let r = x.and_also(|_v| { calls.set(calls.get() + 1); cont });
+        assert!(calls.get() == if x == Res(Ok(())) { 1 } else { 0 });
+        assert!(r == if x == Res(Ok(())) { Res(cont) } else { x });
+        // and_then
+        let calls = Cell::new(0u32);
+        let r: Parsed<(), ()> = x.and_then(|_v| { calls.set(calls.get() + 1); cont });
+        assert!(calls.get() == if x == Res(Ok(())) { 1 } else { 0 });
+        assert!(r == if x == Res(Ok(())) { Res(cont) } else { x });
+        // map / map_err
+        let calls = Cell::new(0u32);
+        let r: Parsed<(), ()> = x.map(|_v| { calls.set(calls.get() + 1); });
+        assert!(calls.get() == if x == Res(Ok(())) { 1 } else { 0 });
+        assert!(r == x);
+        let calls = Cell::new(0u32);
+        let r: Parsed<(), ()> = x.map_err(|_e| { calls.set(calls.get() + 1); });
+        assert!(calls.get() == if x == Res(Err(())) { 1 } else { 0 });
+        assert!(r == x);
+        // or_parse / or_always_parse / or_give_up / optional / matches
+        let alt = any_parsed_unit();
+        let calls = Cell::new(0u32);
+        let r = x.or_parse(|| { calls.set(calls.get() + 1); alt });
+        assert!(calls.get() == if x == Fallthrough { 1 } else { 0 });
+        assert!(r == if x == Fallthrough { alt } else { x });
+        let calls = Cell::new(0u32);
+        let r = x.or_give_up(|| { calls.set(calls.get() + 1); });
+        assert!(calls.get() == if x == Fallthrough { 1 } else { 0 });
+        assert!(r == match x { Fallthrough => Err(()), Res(v) => v });
+        assert!(x.optional() == match x { Fallthrough => Ok(None), Res(Ok(())) => Ok(Some(())), Res(Err(())) => Err(()) });
+        assert!(x.matches() == match x { Fallthrough => Ok(false), Res(Ok(())) => Ok(true), Res(Err(())) => Err(()) });
+        // ResultExt
+        let y: Result<(), ()> = if kani::any() { Ok(()) } else { Err(()) };
+        let calls = Cell::new(0u32);
+        let r = ResultExt::and_do(y, |_v| { calls.set(calls.get() + 1); });
+        assert!(calls.get() == if y.is_ok() { 1 } else { 0 });
+        assert!(r == y);
+        let calls = Cell::new(0u32);
+        let r = ResultExt::and_also(y, |_v| { calls.set(calls.get() + 1); cont });
+        assert!(calls.get() == if y.is_ok() { 1 } else { 0 });
+        assert!(r == if y.is_ok() { cont } else { y });
+    }
 }
